@@ -289,7 +289,8 @@ static uint64_t run_op(ThreadCtx &T, const Op &op)
     case 12: LIB(ascon128_masked_aead_encrypt(T.out, &clen, m, mlen, a, adlen, n, &S.mk128); r = ascon128_masked_aead_decrypt(T.tmp, &plen, T.out, clen, a, adlen, n, &S.mk128)); break;
     case 13: LIB(ascon80pq_masked_aead_encrypt(T.out, &clen, m, mlen, a, adlen, n, &S.mk160); r = ascon80pq_masked_aead_decrypt(T.tmp, &plen, T.out, clen, a, adlen, n, &S.mk160)); break;
     case 14: LIB(ascon_prf(T.out, 24, m, mlen, k); ascon_hmac(T.out + 24, k, 20, m, mlen); r = ascon_mac_verify(T.out, m, mlen, k)); clen = 56; break;
-    case 15: LIB(ascon_kmac(k, 16, m, mlen, a, adlen, T.out, 32); r = ascon_hkdf(T.out + 32, 40, k, 20, a, adlen, m, mlen % 20); ascon_kdf(T.out + 72, 16, k, 16, a, adlen % 9)); clen = 88; break;
+    case 15: LIB(ascon_kmac(k, 16, m, mlen, a, adlen, T.out, (mlen & 1) ? 32 : 24); r = ascon_hkdf(T.out + 32, 40, k, 20, a, adlen, m, mlen % 20); ascon_kdf(T.out + 72, 16, k, 16, a, adlen % 9);
+                 ascon_pbkdf2(T.out + 88, 24, m, mlen % 13, a, adlen % 11, 2); ascon_pbkdf2_hmac(T.out + 112, 8, m, mlen % 13, a, adlen % 11, 1)); clen = 120; break;
     case 16: LIB(r = ascon_random(T.out, 32 + mlen % 32)); clen = 32 + mlen % 32; break;
     case 17: LIB(ascon_random_init(&T.prng); ascon_random_feed(&T.prng, m, mlen % 24); ascon_random_fetch(&T.prng, T.out, 48); ascon_random_free(&T.prng)); clen = 48; break;
     // C++ wrappers (built with clang++ and the same callbacks); raw-pointer overloads only, so that the
